@@ -122,25 +122,29 @@ inductive RuleResult where
   | sent (fpath : Bytes)     -- the request goes to the responder with this script path
 deriving Repr, DecidableEq
 
+/-- the rule's base path matches (also with a leading slash supplied) and the path is not excepted -/
+def ruleApplies (cs : Bool) (urlPath : Bytes) (rule : Rule) : Bool :=
+  (if pathMatches cs urlPath rule.path then true
+   else if hasPrefix urlPath [slash] then false
+   else pathMatches cs (slash :: urlPath) rule.path) && allowedPath cs rule urlPath
+
+/-- `fpath`: the request path without trailing dots and spaces, or the rule's first index file
+that exists below it; and whether it is an index file -/
+def scriptPath (fs : FS) (urlPath : Bytes) (rule : Rule) : Bytes × Bool :=
+  match indexFile fs (trimRightSpDot urlPath) rule.index with
+  | some idx => (idx, true)
+  | none => (trimRightSpDot urlPath, false)
+
+/-- `canSplit`, then `!exists || ends in "/" || has the extension (any case)` -/
+def decideScript (cs : Bool) (fs : FS) (rule : Rule) (p : Bytes) (fromIndex : Bool) : RuleResult :=
+  if (splitPos cs rule p).isNone then (if fromIndex then .err500 else .cont)
+  else if !statOK fs p || hasSuffix p [slash] || hasSuffix (toLower p) (toLower rule.ext) then .sent p
+  else .cont
+
 /-- body of the loop over the rules in `ServeHTTP`, up to the decision to contact the responder -/
 def tryRule (cs : Bool) (fs : FS) (urlPath : Bytes) (rule : Rule) : RuleResult :=
-  let matched :=
-    if pathMatches cs urlPath rule.path then true
-    else if hasPrefix urlPath [slash] then false
-    else pathMatches cs (slash :: urlPath) rule.path
-  if !matched then .cont
-  else if !allowedPath cs rule urlPath then .cont
-  else
-    let fpath := trimRightSpDot urlPath
-    match indexFile fs fpath rule.index with
-    | some idx =>
-      if (splitPos cs rule idx).isNone then .err500
-      else if !statOK fs idx || hasSuffix idx [slash] || hasSuffix (toLower idx) (toLower rule.ext) then .sent idx
-      else .cont
-    | none =>
-      if (splitPos cs rule fpath).isNone then .cont
-      else if !statOK fs fpath || hasSuffix fpath [slash] || hasSuffix (toLower fpath) (toLower rule.ext) then .sent fpath
-      else .cont
+  if !ruleApplies cs urlPath rule then .cont
+  else decideScript cs fs rule (scriptPath fs urlPath rule).1 (scriptPath fs urlPath rule).2
 
 inductive Outcome where
   | next                                   -- `h.Next.ServeHTTP`: e.g. the static file server
@@ -231,6 +235,69 @@ def hexDigitB (n : Nat) : UInt8 := if n < 10 then UInt8.ofNat (0x30 + n) else UI
 def escapePath (p : Bytes) : Bytes :=
   p.flatMap fun b => if pathSafe b then [b] else [0x25, hexDigitB (b.toNat / 16), hexDigitB (b.toNat % 16)]
 
+/-- the map literal of `buildEnv` -/
+def baseEnv (srv : Server) (r : Req) (rule : Rule) (fpath : Bytes) (sp : Nat) : List (Bytes × Bytes) :=
+  let (ip, port) := match lastColon r.remoteAddr with
+    | some i => (r.remoteAddr.take i, r.remoteAddr.drop (i + 1))
+    | none => (r.remoteAddr, [])
+  let ip := removeFirst 0x5d (removeFirst 0x5b ip)
+  let docURI := fpath.take (sp + rule.split.length)
+  let pathInfo := fpath.drop (sp + rule.split.length)
+  let scriptName := if pathInfo.isEmpty then fpath else
+    (if hasSuffix fpath pathInfo then fpath.take (fpath.length - pathInfo.length) else fpath)
+  let requestURI := (if r.path.isEmpty then [slash] else escapePath r.path) ++
+    (if r.rawQuery.isEmpty then [] else 0x3f :: r.rawQuery)
+  [ (bytes "AUTH_TYPE", []),
+    (bytes "CONTENT_LENGTH", headerGet r.headers "Content-Length"),
+    (bytes "CONTENT_TYPE", headerGet r.headers "Content-Type"),
+    (bytes "GATEWAY_INTERFACE", bytes "CGI/1.1"),
+    (bytes "PATH_INFO", pathInfo),
+    (bytes "QUERY_STRING", r.rawQuery),
+    (bytes "REMOTE_ADDR", ip),
+    (bytes "REMOTE_HOST", ip),
+    (bytes "REMOTE_PORT", port),
+    (bytes "REMOTE_IDENT", []),
+    (bytes "REMOTE_USER", []),
+    (bytes "REQUEST_METHOD", r.method),
+    (bytes "REQUEST_SCHEME", bytes "http"),
+    (bytes "SERVER_NAME", srv.name),
+    (bytes "SERVER_PORT", srv.port),
+    (bytes "SERVER_PROTOCOL", r.proto),
+    (bytes "SERVER_SOFTWARE", srv.software),
+    (bytes "DOCUMENT_ROOT", rule.root),
+    (bytes "DOCUMENT_URI", docURI),
+    (bytes "HTTP_HOST", r.host),
+    (bytes "REQUEST_URI", requestURI),
+    (bytes "SCRIPT_FILENAME", join2 rule.root scriptName),
+    (bytes "SCRIPT_NAME", join2 [] scriptName) ]
+
+/-- `if env["PATH_INFO"] != "" { env["PATH_TRANSLATED"] = … }` -/
+def pathTranslatedEnv (rule : Rule) (fpath : Bytes) (sp : Nat) (env : List (Bytes × Bytes)) : List (Bytes × Bytes) :=
+  let pathInfo := fpath.drop (sp + rule.split.length)
+  if pathInfo.isEmpty then env else setVar (bytes "PATH_TRANSLATED") (join2 rule.root pathInfo) env
+
+/-- `for _, envVar := range rule.EnvVars` -/
+def ruleEnv (rule : Rule) (env : List (Bytes × Bytes)) : List (Bytes × Bytes) :=
+  rule.env.foldl (fun e kv => setVar kv.1 kv.2 e) env
+
+/-- `for field, val := range r.Header` -/
+def headersEnv (r : Req) (env : List (Bytes × Bytes)) : List (Bytes × Bytes) :=
+  r.headers.foldl (fun e h => setVar (envName h.1) (joinComma h.2) e) env
+
+/-- what `Head` / `Get` / `Options` / `Post` put over it (ServeHTTP computes `contentLength`) -/
+def methodEnv (r : Req) (env : List (Bytes × Bytes)) : List (Bytes × Bytes) :=
+  let cl := if r.contentLength > 0 then r.contentLength else parseLen (headerGet r.headers "Content-Length")
+  if r.method == bytes "HEAD" || r.method == bytes "OPTIONS" then
+    setVar (bytes "CONTENT_LENGTH") (bytes "0") (setVar (bytes "REQUEST_METHOD") r.method env)
+  else if r.method == bytes "GET" then
+    setVar (bytes "CONTENT_LENGTH") (natToBytes cl) (setVar (bytes "REQUEST_METHOD") r.method env)
+  else
+    let m := toUpper r.method
+    let m := if m.isEmpty || m == bytes "GET" then bytes "POST" else m
+    let ct := headerGet r.headers "Content-Type"
+    let ct := if ct.isEmpty then bytes "application/x-www-form-urlencoded" else ct
+    setVar (bytes "CONTENT_TYPE") ct (setVar (bytes "CONTENT_LENGTH") (natToBytes cl) (setVar (bytes "REQUEST_METHOD") m env))
+
 /-- `buildEnv(r, rule, fpath)` followed by the `REQUEST_METHOD` / `CONTENT_LENGTH` /
 `CONTENT_TYPE` adjustments of `Get`, `Head`, `Options`, `Post`; plain HTTP (no TLS), no
 path prefix, no authenticated user.  `none`: `splitPos` is -1 (excluded by `canSplit`). -/
@@ -238,57 +305,7 @@ def buildEnv (cs : Bool) (srv : Server) (r : Req) (rule : Rule) (fpath : Bytes) 
   match splitPos cs rule fpath with
   | none => none
   | some sp =>
-    let (ip, port) := match lastColon r.remoteAddr with
-      | some i => (r.remoteAddr.take i, r.remoteAddr.drop (i + 1))
-      | none => (r.remoteAddr, [])
-    let ip := removeFirst 0x5d (removeFirst 0x5b ip)
-    let docURI := fpath.take (sp + rule.split.length)
-    let pathInfo := fpath.drop (sp + rule.split.length)
-    let scriptName := if pathInfo.isEmpty then fpath else
-      (if hasSuffix fpath pathInfo then fpath.take (fpath.length - pathInfo.length) else fpath)
-    let requestURI := (if r.path.isEmpty then [slash] else escapePath r.path) ++
-      (if r.rawQuery.isEmpty then [] else 0x3f :: r.rawQuery)
-    let env : List (Bytes × Bytes) := [
-      (bytes "AUTH_TYPE", []),
-      (bytes "CONTENT_LENGTH", headerGet r.headers "Content-Length"),
-      (bytes "CONTENT_TYPE", headerGet r.headers "Content-Type"),
-      (bytes "GATEWAY_INTERFACE", bytes "CGI/1.1"),
-      (bytes "PATH_INFO", pathInfo),
-      (bytes "QUERY_STRING", r.rawQuery),
-      (bytes "REMOTE_ADDR", ip),
-      (bytes "REMOTE_HOST", ip),
-      (bytes "REMOTE_PORT", port),
-      (bytes "REMOTE_IDENT", []),
-      (bytes "REMOTE_USER", []),
-      (bytes "REQUEST_METHOD", r.method),
-      (bytes "REQUEST_SCHEME", bytes "http"),
-      (bytes "SERVER_NAME", srv.name),
-      (bytes "SERVER_PORT", srv.port),
-      (bytes "SERVER_PROTOCOL", r.proto),
-      (bytes "SERVER_SOFTWARE", srv.software),
-      (bytes "DOCUMENT_ROOT", rule.root),
-      (bytes "DOCUMENT_URI", docURI),
-      (bytes "HTTP_HOST", r.host),
-      (bytes "REQUEST_URI", requestURI),
-      (bytes "SCRIPT_FILENAME", join2 rule.root scriptName),
-      (bytes "SCRIPT_NAME", join2 [] scriptName)]
-    let env := if pathInfo.isEmpty then env else setVar (bytes "PATH_TRANSLATED") (join2 rule.root pathInfo) env
-    let env := rule.env.foldl (fun e kv => setVar kv.1 kv.2 e) env
-    let env := r.headers.foldl (fun e h => setVar (envName h.1) (joinComma h.2) e) env
-    -- ServeHTTP: contentLength, then Head / Get / Options / Post
-    let cl := if r.contentLength > 0 then r.contentLength else parseLen (headerGet r.headers "Content-Length")
-    let env :=
-      if r.method == bytes "HEAD" || r.method == bytes "OPTIONS" then
-        setVar (bytes "CONTENT_LENGTH") (bytes "0") (setVar (bytes "REQUEST_METHOD") r.method env)
-      else if r.method == bytes "GET" then
-        setVar (bytes "CONTENT_LENGTH") (natToBytes cl) (setVar (bytes "REQUEST_METHOD") r.method env)
-      else
-        let m := toUpper r.method
-        let m := if m.isEmpty || m == bytes "GET" then bytes "POST" else m
-        let ct := headerGet r.headers "Content-Type"
-        let ct := if ct.isEmpty then bytes "application/x-www-form-urlencoded" else ct
-        setVar (bytes "CONTENT_TYPE") ct (setVar (bytes "CONTENT_LENGTH") (natToBytes cl) (setVar (bytes "REQUEST_METHOD") m env))
-    some env
+    some (methodEnv r (headersEnv r (ruleEnv rule (pathTranslatedEnv rule fpath sp (baseEnv srv r rule fpath sp)))))
 
 /-- the request body the client sends on stdin: `Head` and `Options` pass no body reader -/
 def stdinOf (r : Req) : Bytes :=
